@@ -47,7 +47,7 @@ def _row_columns(fn, outer) -> List[str]:
         _, inner = _row_loop(fn)
     except AnalysisError:
         return []
-    cz = _column_zip(inner.iter)
+    cz = _column_zip(inner.iter) or _column_zip(inner.iter, mixed=True)
     if cz is not None and _itertuples_call(inner.iter) is None:
         out = []
         for a in cz:
@@ -139,13 +139,13 @@ def _itertuples_call(e) -> Optional[ast.Call]:
     return None
 
 
-def _column_zip(it) -> Optional[List[ast.AST]]:
+def _column_zip(it, mixed: bool = False) -> Optional[List[ast.AST]]:
     """zip(G["a"], G["b"], .., S): the arguments, when at least two are columns of one frame G (the rows walked column-wise)"""
     if not (isinstance(it, ast.Call) and call_name(it) == "zip" and isinstance(it.func, ast.Name) and len(it.args) >= 2):
         return None
     frames = [unparse(a.value) for a in it.args if isinstance(a, ast.Subscript) and isinstance(a.slice, ast.Constant) and isinstance(a.slice.value, str)]
     frames += [unparse(a.value) for a in it.args if isinstance(a, ast.Attribute) and isinstance(a.value, ast.Name)]
-    if len(frames) >= 2 and len(set(frames)) == 1:
+    if len(frames) >= 2 and (len(set(frames)) == 1 or mixed):
         return list(it.args)
     return None
 
@@ -158,6 +158,8 @@ def _row_loop(fn) -> Tuple[ast.For, ast.For]:
     inner = next((n for n in fors if _itertuples_call(n.iter) is not None), None)
     if inner is None:
         inner = next((n for n in fors if _column_zip(n.iter) is not None), None)      # rows walked column-wise: zip(G["a"], G["b"], ...)
+    if inner is None:
+        inner = next((n for n in fors if _column_zip(n.iter, mixed=True) is not None), None)    # ... of DIFFERENT frames: reported by R1
     if inner is None:
         raise AnalysisError("full_ln: per-column / per-row loops not found")
     outer = next((n for n in fors if n is not inner and any(x is inner for x in ast.walk(n))), None)
@@ -236,7 +238,14 @@ def rule_r1(ctx) -> List[R.Inst]:
     names = _flat_names(inner.target)
     itc = _itertuples_call(inner.iter)
     idx_false = itc is None or any(k.arg == "index" and isinstance(k.value, ast.Constant) and k.value.value is False for k in itc.keywords)
-    if not cols or not names or "?" in cols:
+    mixed_zip = _itertuples_call(inner.iter) is None and _column_zip(inner.iter) is None and _column_zip(inner.iter, mixed=True) is not None
+    if mixed_zip:
+        frs = sorted({unparse(a.value) for a in inner.iter.args if isinstance(a, (ast.Subscript, ast.Attribute)) and isinstance(a.value, ast.Name)})
+        insts.append(R.viol(rid, "row-unpack", file, inner.lineno,
+                            f"the rows are walked as a zip of columns of DIFFERENT frames {frs}: zip pairs by position and stops at the shortest, "
+                            f"so a column of the whole frame next to columns of one group gives every note of the group the values of the frame's first rows",
+                            construct=f"zip over columns of {frs}"))
+    elif not cols or not names or "?" in cols:
         insts.append(R.undec(rid, "row-unpack", file, inner.lineno, "projection / row unpacking not recognised"))
     elif names == cols and idx_false:
         insts.append(R.ok(rid, "row-unpack", file, inner.lineno, idiom=f"rows unpacked as {names} = projected columns + added"))
